@@ -362,7 +362,7 @@ fn c09(_ctx: &Ctx, r: &mut Report) {
                 if const_first && !generics {
                     continue;
                 }
-                for opts in ["", "mockall", "unimock", "delegate_by = ref"] {
+                for opts in ["", "mockall", "unimock", "delegate_by = ref", "pub TrImpl, delegate_by = ref", "pub(crate) TrImpl, delegate_by = DelegateTr"] {
                     let tattrs = "#[doc = \"trait docs\"] #[allow(dead_code)]";
                     let body = format!(
                         "{} #[doc = \"m\"] fn f(&self, a: i32) -> i32; {} async fn h<X>(&self, x: X) -> u8 where X: Send + 'static, Self: Sized;",
